@@ -102,7 +102,7 @@ impl Property for C04 {
         ]
     }
     fn pbt(&self, tier: Tier) -> PbtCfg {
-        PbtCfg { cases: tier.pick(30_000, 800_000), max_len: tier.pick(1200, 4000), shrink_ms: 120_000 }
+        PbtCfg { cases: tier.pick(30_000, 400_000), max_len: tier.pick(1200, 4000), shrink_ms: 120_000 }
     }
     fn required_labels(&self) -> Vec<&'static str> {
         vec!["replay_of_accepted", "behind_255", "behind_256", "forged_before_genuine", "genuine_after_forgery", "readdressed", "other_protocol", "other_key", "wide_sequence", "out_of_order_accept", "replay_window_model"]
